@@ -23,7 +23,7 @@ _STEPS = [0]
 ACTIONS = ['open', 'open_rej', 'open_ws', 'close_post', 'disconnect_api', 'ws_close', 'vanish',
            'poll', 'upgrade', 'half_upgrade', 'save', 'tick', 'bad_post', 'open_ws_dropped']
 # second pass: histories that start in the state "first PING is outstanding" (short heartbeat)
-ACTIONS2 = ['talk', 'vanish', 'poll', 'tick', 'send', 'upgrade', 'half_upgrade', 'pong', 'close_post']
+ACTIONS2 = ['talk', 'vanish', 'poll', 'tick', 'send', 'upgrade', 'half_upgrade', 'pong', 'close_post', 'send_bin']
 INTERVAL2 = 2.0
 
 
@@ -131,6 +131,9 @@ def apply_action(w, ss, rejected, a):
             peer.post(w, s.sid, '3')
     elif a == 'send':
         w.call('send', s.sid, 'from-app')
+        w.run()
+    elif a == 'send_bin':
+        w.call('send', s.sid, b'\x00\xffbinary')      # a binary message that may still be queued when the session ends
         w.run()
     elif a == 'vanish':
         s.vanished = True
